@@ -1811,3 +1811,177 @@ func ruleCtxIndex(w *World, r *Report, pkg *ssa.Package) {
 		r.Bad(rule, fnName(fn)+":instance-floor", w.Pos(fn.Pos()), fmt.Sprintf("context index computations found: before=%d after=%d", n["Before"], n["After"]))
 	}
 }
+
+// ruleMergeRoot — R-MERGEROOT (C12, "null at the root", "{} over a non-object").
+// RFC 7386 treats the patch document's root differently from its members:
+//
+//	MergePatch(T, null) = null          (a member null deletes, the root null *is* the result)
+//	MergePatch(T, {})   = {} if T is not an object
+//
+// (a) No patch document is a no-op on every target, so a successful read must
+// never answer with a diff that has no hunk. (b) The member reader turns null
+// into the deletion marker; the root must not go through that conversion
+// undistinguished: either the top-level reader tests the root for null before
+// delegating, or the conversion is guarded by a test of the path's length.
+func ruleMergeRoot(w *World, r *Report, pkg *ssa.Package, tag string) {
+	const rule = "R-MERGEROOT"
+	fn := w.Func(pkg, "ReadMergeString")
+	r.Fn(fnName(fn))
+	// (a) empty diff on success
+	{
+		var isEmptyLit func(v ssa.Value, depth int) bool
+		isEmptyLit = func(v ssa.Value, depth int) bool {
+			if depth > 4 {
+				return false
+			}
+			switch x := strip(v).(type) {
+			case *ssa.Slice:
+				if al, ok := x.X.(*ssa.Alloc); ok {
+					if at, ok := al.Type().(*types.Pointer).Elem().Underlying().(*types.Array); ok && at.Len() == 0 {
+						return true
+					}
+				}
+			case *ssa.MakeSlice:
+				if k, ok := constInt(x.Len); ok && k == 0 {
+					// made empty and never grown on the way to this return is not tracked: only the plain literal counts
+					return false
+				}
+			case *ssa.Const:
+				return x.IsNil()
+			case *ssa.Phi:
+				for _, e := range x.Edges {
+					if isEmptyLit(e, depth+1) {
+						return true
+					}
+				}
+			}
+			return false
+		}
+		bad := ""
+		n := 0
+		for _, ret := range returnsOf(fn) {
+			if !isNilErrReturn(ret) {
+				continue
+			}
+			n++
+			if isEmptyLit(ret.Results[0], 0) {
+				bad = w.Pos(ret.Pos())
+			}
+		}
+		r.Check(bad == "", rule, tag+".ReadMergeString:never-the-empty-diff", w.Pos(fn.Pos()),
+			fmt.Sprintf("none of the %d success returns of the merge reader hands back a diff without hunks", n),
+			"the merge reader answers a patch document with the empty diff (return at "+bad+"): applying it leaves every target unchanged, but no RFC 7386 patch document is a no-op on every target — `{}` turns any non-object target into `{}`")
+	}
+	// (b) the root null
+	{
+		// the root node: first result of the JSON reader
+		var root ssa.Value
+		allInstrs(fn, func(in ssa.Instruction) {
+			ex, ok := in.(*ssa.Extract)
+			if !ok || ex.Index != 0 || !isJsonNodeIface(ex.Type()) {
+				return
+			}
+			if root == nil {
+				root = ex
+			}
+		})
+		rootTested := false
+		if root != nil {
+			d := NewDeriv(w, fn)
+			for _, b := range fn.Blocks {
+				cond, _, _, ok := branchEdges(b)
+				if !ok {
+					continue
+				}
+				switch c := cond.(type) {
+				case *ssa.Call:
+					if sf := staticCallee(c); sf != nil && w.helperIs(sf, "isNull") && len(c.Call.Args) == 1 && d.HasRoot(c.Call.Args[0], root) {
+						rootTested = true
+					}
+				case *ssa.Extract:
+					if ta, ok := c.Tuple.(*ssa.TypeAssert); ok && typeName(ta.AssertedType) == "jsonNull" && d.HasRoot(ta.X, root) {
+						rootTested = true
+					}
+				}
+			}
+		}
+		// the conversion sites in what the reader reaches
+		guarded, sites := 0, 0
+		seen := map[*ssa.Function]bool{fn: true}
+		work := []*ssa.Function{fn}
+		for len(work) > 0 {
+			f := work[0]
+			work = work[1:]
+			withClosures(f, func(g *ssa.Function) {
+				var pathParams []ssa.Value
+				for _, p := range g.Params {
+					if typeName(p.Type()) == "Path" {
+						pathParams = append(pathParams, p)
+					}
+				}
+				for _, b := range g.Blocks {
+					cond, tE, _, ok := branchEdges(b)
+					if !ok {
+						continue
+					}
+					c, isCall := cond.(*ssa.Call)
+					if !isCall {
+						continue
+					}
+					sf := staticCallee(c)
+					if sf == nil || !w.helperIs(sf, "isNull") {
+						continue
+					}
+					sites++
+					// is the true edge dominated by a branch on len(path)?
+					okLen := false
+					for _, b2 := range g.Blocks {
+						cond2, t2, f2, ok2 := branchEdges(b2)
+						if !ok2 {
+							continue
+						}
+						bo, isBo := cond2.(*ssa.BinOp)
+						if !isBo {
+							continue
+						}
+						t, _, _, okT := termOf(bo.X)
+						if !okT || !t.isLen {
+							continue
+						}
+						isPath := false
+						for _, pp := range pathParams {
+							if t.v == pp {
+								isPath = true
+							}
+						}
+						if isPath && (edgeDominates(t2, tE.To()) || edgeDominates(f2, tE.To()) || edgeDominates(t2, b) || edgeDominates(f2, b)) {
+							okLen = true
+						}
+					}
+					if okLen {
+						guarded++
+					}
+				}
+				allInstrs(g, func(in ssa.Instruction) {
+					if cc, ok := in.(ssa.CallInstruction); ok {
+						if sf := staticCallee(cc); sf != nil && sf.Blocks != nil && sf.Parent() == nil && fnPkg(sf) == pkg.Pkg && !seen[sf] {
+							if obj, _ := sf.Object().(*types.Func); obj != nil && !obj.Exported() && !w.helperIs(sf, "isNull") {
+								seen[sf] = true
+								work = append(work, sf)
+							}
+						}
+					}
+				})
+			})
+		}
+		key := tag + ".ReadMergeString:root-null-is-not-a-deletion"
+		switch {
+		case sites == 0:
+			r.Ok(rule, key, w.Pos(fn.Pos()), "no null test found in what the merge reader reaches: this clause makes no claim (not decided)")
+		default:
+			r.Check(rootTested || guarded == sites, rule, key, w.Pos(fn.Pos()),
+				"the root of the patch document is told apart from its members before null is turned into the deletion marker",
+				"the root of the patch document goes through the same null→deletion conversion as a member (the top-level reader does not test the root for null and the conversion does not look at the path's length): the patch document `null` empties the target, whereas RFC 7386 makes the result `null`")
+		}
+	}
+}
